@@ -1060,6 +1060,15 @@ func (in *Interp) equal(t types.Type, x, y Value) *sym.Term {
 			return in.strEq(x.(Str), y.(Str))
 		}
 		if isFloat(t) {
+			bx, okx := x.(JNumBox)
+			by, oky := y.(JNumBox)
+			if okx || oky {
+				// decoded JSON numbers that stayed symbolic: equal to themselves
+				if okx && oky && bx.N == by.N {
+					return c.T
+				}
+				in.unsupported("comparison of a symbolic decoded JSON number")
+			}
 			return c.Bool(x.(float64) == y.(float64))
 		}
 		if t.Kind() == types.UnsafePointer {
@@ -1173,6 +1182,22 @@ func (in *Interp) convert(from, to types.Type, x Value) Value {
 	}
 	if isFloat(fu) {
 		if tw, tsigned, ok := intInfo(tu); ok && tw > 0 {
+			if nb, isBox := x.(JNumBox); isBox {
+				// a symbolic decoded integer below 2^53 in magnitude converts exactly
+				if nb.N.Kind != JNumVal || tw != 64 {
+					in.unsupported("conversion of a symbolic decoded JSON number")
+				}
+				v := nb.N.Val
+				lim := c.BV(64, 1<<53)
+				small := c.And(c.Cmp(sym.OpSlt, c.Neg(lim), v), c.Cmp(sym.OpSlt, v, lim))
+				if !nb.N.Signed {
+					small = c.Cmp(sym.OpUlt, v, lim)
+				}
+				if !in.Path.Branch(small) {
+					in.unsupported("conversion of a symbolic decoded JSON number of 2^53 or more")
+				}
+				return v
+			}
 			f := x.(float64)
 			if tsigned {
 				return c.BV(tw, uint64(int64(f)))
